@@ -126,3 +126,201 @@ def squeeze(x):
     if len(x) == 1:
         return squeeze(x[0])
     return [squeeze(y) for y in x]
+
+
+# ----------------------------------------------------------------------------- lateral boundary, evaluated in Coq (Model/Lbdy.v)
+def is_lb(case):
+    return case.get('content', {}).get('fmt') == 'lateral_boundary' and not case.get('sweep')
+
+
+def _lb_open(p, c):
+    f = M.open_memmap('lateral_boundary', p, c)
+    o = M.observe(f, 'lateral_boundary')
+    o['attrs'] = dict(NAME=str(f.NAME), NOTE=str(f.NOTE), ITZON=int(f.ITZON))
+    return f, o
+
+
+def run_lb(case):
+    """reference-encoded file (optionally cut to case['cut'] bytes) -> library reader -> (whole file) library writer"""
+    c = case['content']
+    ws = M.encode(c)
+    b = L.bytes_of_words(ws)
+    cut = case.get('cut')
+    d = L.workdir()
+    obs = dict(nwords=len(ws), cut=len(b) if cut is None else cut)
+    try:
+        p = os.path.join(d, 'f.bin')
+        holder = {}
+        if cut is not None:
+            with open(p, 'wb') as f:
+                f.write(b)
+            st, r = _guard(lambda: _lb_open(p, c)[1])
+            obs['full'] = dict(status=st, ETFLAG=(r or {}).get('ETFLAG') if st == 'ok' else None)
+        with open(p, 'wb') as f:
+            f.write(b if cut is None else b[:cut])
+
+        def mm():
+            holder['f'], o = _lb_open(p, c)
+            return o
+        st, o = _guard(mm)
+        obs['mm'] = dict(status=st, view=o if st == 'ok' else None, err=o if st == 'raises' else None)
+        if st == 'ok' and cut is None:
+            p2 = os.path.join(d, 'g.bin')
+
+            def wr():
+                M.write('lateral_boundary', holder['f'], p2)
+                return L.words_of_bytes(open(p2, 'rb').read())
+            st2, w = _guard(wr)
+            obs['wr'] = dict(status=st2, words=w if st2 == 'ok' else None, err=w if st2 == 'raises' else None)
+    finally:
+        shutil.rmtree(d, ignore_errors=True)
+    signal.setitimer(signal.ITIMER_REAL, 60.0)
+    return obs
+
+
+def run_lb_w(case):
+    """C08: in-memory file built from the content (fresh arrays, no _boundary_def: the writer generates the edge
+    definitions) -> library writer -> library reader -> library writer"""
+    import numpy as np
+    from PseudoNetCDF import PseudoNetCDFFile
+    c = case['content']
+    ws = M.encode(c)
+    d = L.workdir()
+    obs = dict(nwords=len(ws))
+    try:
+        p0 = os.path.join(d, 'ref.bin')
+        with open(p0, 'wb') as f:
+            f.write(L.bytes_of_words(ws))
+
+        def build():
+            f0 = M.open_memmap('lateral_boundary', p0, c)
+            g = PseudoNetCDFFile()
+            for k, dim in f0.dimensions.items():
+                g.createDimension(k, len(dim))
+            for k in f0.ncattrs():
+                setattr(g, k, getattr(f0, k))
+            for k in list(f0.variables.keys()):
+                if k == 'ETFLAG' and case.get('drop_etflag'):
+                    continue
+                v = f0.variables[k]
+                nv = g.createVariable(k, v.dtype.char, v.dimensions, values=np.array(v[...]).copy())
+                for a in v.ncattrs():
+                    setattr(nv, a, getattr(v, a))
+            p1 = os.path.join(d, 'w1.bin')
+            M.write('lateral_boundary', g, p1)
+            return L.words_of_bytes(open(p1, 'rb').read())
+        st, w1 = _guard(build, 6.0)
+        obs['w1'] = dict(status=st, words=w1 if st == 'ok' else None, err=w1 if st == 'raises' else None)
+        if st == 'ok':
+            holder = {}
+
+            def rd():
+                holder['f'], o = _lb_open(os.path.join(d, 'w1.bin'), c)
+                return o
+            st2, o = _guard(rd)
+            obs['mm'] = dict(status=st2, view=o if st2 == 'ok' else None, err=o if st2 == 'raises' else None)
+            if st2 == 'ok':
+                p2 = os.path.join(d, 'w2.bin')
+
+                def wr():
+                    M.write('lateral_boundary', holder['f'], p2)
+                    return L.words_of_bytes(open(p2, 'rb').read())
+                st3, w2 = _guard(wr)
+                obs['w2'] = dict(status=st3, words=w2 if st3 == 'ok' else None, err=w2 if st3 == 'raises' else None)
+    finally:
+        shutil.rmtree(d, ignore_errors=True)
+    signal.setitimer(signal.ITIMER_REAL, 60.0)
+    return obs
+
+
+def lb_hours(c):
+    return '[' + '; '.join('(%d, %d)' % (s['bhour'], s['ehour']) for s in c['steps']) + ']'
+
+
+def lb_term_read(case, obs):
+    """Coq term `L (LCase ...)` of Corr/C09.v for a run_lb observation"""
+    c = case['content']
+    mm = obs['mm']
+    ok = mm['status'] == 'ok'
+    v, tf, etf = M.coq_lview(c, mm['view'] if ok else None)
+    full = obs.get('full')
+    full_etf = M.coq_pairs((full or {}).get('ETFLAG') or []) if full is not None else etf
+    wr = obs.get('wr') or {}
+    return '(L (LCase %s %s %s %d %s %s %s %s %s %s %s %s))' % (
+        M.coq_lbdy(c), lb_hours(c), C.zlist(M.encode(c)), obs['cut'], C.cbool(ok), v, tf, etf, full_etf,
+        C.cbool(not lb_py_check(case, obs)), C.cbool(wr.get('status') == 'ok'), C.zlist(wr.get('words') or []))
+
+
+def lb_py_check(case, obs, need_write=True):
+    """what the Coq term does not carry: variable names/order, NAME/NOTE/ITZON attributes, harness failures"""
+    c = case['content']
+    why = []
+    mm = obs.get('mm') or {}
+    if mm.get('status') == 'timeout':
+        why.append('library reader did not return')
+    if mm.get('status') == 'ok':
+        v = mm['view']
+        if list(v['data'].keys()) != M.lb_expected_keys(c['names']):
+            why.append('variables %s expected %s' % (list(v['data'].keys())[:5], M.lb_expected_keys(c['names'])[:5]))
+        if v['dims'].get('VAR') != 4 * len(c['names']):
+            why.append('VAR=%s' % v['dims'].get('VAR'))
+        # array shapes (TSTEP, ncell, LAY): the Coq term carries the flattened words only
+        for k, arr in v['data'].items():
+            ncell = c['ny'] if k.split('_')[0] in ('WEST', 'EAST') else c['nx']
+            if not (len(arr) == v['dims'].get('TSTEP') and all(len(t) == ncell and all(len(cell) == c['nz'] for cell in t) for t in arr)):
+                why.append('shape of %s is not (TSTEP, %d, %d)' % (k, ncell, c['nz']))
+                break
+        a = v.get('attrs', {})
+        if a.get('NAME', '').strip() != c['name'].strip():
+            why.append('NAME differs')
+        if a.get('NOTE', '').strip() != c['note'].strip():
+            why.append('NOTE differs')
+        if a.get('ITZON') != c['itzon']:
+            why.append('ITZON differs')
+    return why
+
+
+def lb_thin(c):
+    return c.get('fmt') == 'lateral_boundary' and (c['nx'] == 1 or c['ny'] == 1)
+
+
+def walk_records(ws):
+    """python record walker (only for the python-judged thin-grid boundary files): list of payloads or None"""
+    i, out = 0, []
+    while i < len(ws):
+        if ws[i] % 4 or ws[i] < 0:
+            return None
+        m = ws[i] // 4
+        if i + m + 1 >= len(ws) or ws[i + m + 1] != ws[i]:
+            return None
+        out.append(ws[i + 1:i + 1 + m])
+        i += m + 2
+    return out
+
+
+def lb_thin_check(case, obs):
+    """S for the writer path on nx or ny = 1 (python-judged): the written file tiles into records equal to the reference
+    records (up to the writer's own end-date derivation), reads back as the content, and re-writes identically"""
+    c = case['content']
+    why = lb_py_check(case, obs)
+    w1 = obs.get('w1') or {}
+    if w1.get('status') != 'ok':
+        why.append('library writer on the in-memory file: %s (%s)' % (w1.get('status'), w1.get('err')))
+    else:
+        recs = walk_records(w1['words'])
+        if recs is None:
+            why.append('library writer output is not a sequence of Fortran records (markers do not tile the file)')
+        elif not _year_end_23(c) and recs != M.records(c):
+            why.append('records written differ from the reference records')
+        mm = obs.get('mm') or {}
+        if mm.get('status') != 'ok':
+            why.append('library reader on the written file: %s (%s)' % (mm.get('status'), mm.get('err')))
+        else:
+            e = M.expected_view(c)
+            why += M.view_matches(mm['view'], e)
+            if not _year_end_23(c) and mm['view'].get('ETFLAG') != e['ETFLAG']:
+                why.append('ETFLAG %s expected %s' % (mm['view'].get('ETFLAG'), e['ETFLAG']))
+            w2 = obs.get('w2') or {}
+            if w2.get('status') != 'ok' or w2.get('words') != w1['words']:
+                why.append('second write differs from the first')
+    return why
